@@ -38,6 +38,8 @@ def fault_plan(rng, golden_nops, kinds):
 
 
 class HistoryGen(object):
+    prop = "C07"
+
     def __init__(self, seeds, targets, poisons, goldens, api_ok=None, round_no=0):
         self.seeds = seeds
         self.targets = targets  # list of admitted job ids (sorted)
@@ -54,6 +56,9 @@ class HistoryGen(object):
                 self.pairs_seen.add((prev, r["job"]))
             prev = r["job"]
 
+    def choose_pool(self, rng):
+        return rng.sample(self.targets, min(len(self.targets), rng.randint(3, 6)))
+
     def pick(self, rng, pool, prev):
         if prev is not None and rng.random() < 0.6:
             fresh = [j for j in pool if (prev, j) not in self.pairs_seen]
@@ -63,7 +68,7 @@ class HistoryGen(object):
 
     def history(self, i, with_faults=True):
         rng = self.seeds.rng("hist", self.round_no, i)
-        pool = rng.sample(self.targets, min(len(self.targets), rng.randint(3, 6)))
+        pool = self.choose_pool(rng)
         # swarm: per-history feature switches
         use_env = rng.random() < 0.5
         use_dirty = rng.random() < 0.5
@@ -103,7 +108,7 @@ class HistoryGen(object):
                 prev = jid
         jid = self.pick(rng, pool, prev)
         ops.append(self.run_op(rng, jid, entries))
-        return {"prop": "C07", "round": self.round_no, "index": i, "ops": ops,
+        return {"prop": self.prop, "round": self.round_no, "index": i, "ops": ops,
                 "faulty": bool(nfault)}
 
     def run_op(self, rng, jid, entries):
